@@ -842,7 +842,9 @@ class Engine:
     if k == 'list':
       ln = sv.l_len(base)
       self.emit(st, 'safe-index', z3.And(-ln <= idx.z, idx.z < ln), n, 'list index in range')
-      j = z3.If(idx.z < 0, idx.z + ln, idx.z)
+      # an index that is syntactically non-negative (a bound variable of range(k, ..) with k >= 0, a
+      # literal, sums of those) needs no wrap-around: keeps quantifier triggers of the form arr[i]
+      j = idx.z if self.nonneg(idx.z) else z3.If(idx.z < 0, idx.z + ln, idx.z)
       return V(base.t.args[0], z3.Select(sv.l_arr(base), j))
     if k == 'dict':
       key = coerce(idx, base.t.args[0])
@@ -855,6 +857,16 @@ class Engine:
     raise Unsupported('subscript of %r' % (base.t,))
 
   # ----- comprehensions / quantifiers
+  def nonneg(self, z):
+    if z3.is_int_value(z):
+      return z.as_long() >= 0
+    nn = self.__dict__.setdefault('nonneg_vars', set())
+    if z3.is_const(z) and z.decl().kind() == z3.Z3_OP_UNINTERPRETED:
+      return z.get_id() in nn
+    if z3.is_app(z) and z.decl().kind() == z3.Z3_OP_ADD:
+      return all(self.nonneg(c) for c in z.children())
+    return False
+
   def e_GeneratorExp(self, n, st):
     raise Unsupported('bare generator expression')
 
@@ -879,6 +891,8 @@ class Engine:
         args = [self.ev(a, st).z for a in it.args]
         lo, hi = (z3.IntVal(0), args[0]) if len(args) == 1 else (args[0], args[1])
         dom = z3.And(lo <= k, k < hi)
+        if self.nonneg(lo):
+          self.__dict__.setdefault('nonneg_vars', set()).add(k.get_id())
         self.bound[name] = sv.mk_int(k)
       else:
         c = self.ev(it, st)
@@ -1019,7 +1033,8 @@ class Engine:
       argts, rett = self.u['ufs'][callee.name]
       args = [coerce(self.ev(a, st), self.ty(t)) for a, t in zip(n.args, argts)]
       f = uf('spec_' + callee.name, [sv.zsort(a.t) for a in args], sv.zsort(self.ty(rett)), self.ty(rett))
-      return V(self.ty(rett), f(*[a.z for a in args]))
+      # list arguments normalised outside [0, len): lists equal as Python values are equal terms
+      return V(self.ty(rett), f(*[normalise_list(a).z for a in args]))
     if callee.kind == 'ctor':
       args = [self.ev(a, st) for a in n.args]
       saved = dict(self.bound)
@@ -1319,6 +1334,11 @@ class Engine:
     for i, r in enumerate(cu.get('requires', [])):
       g = truthy(sub.ev(parse_expr(r), cst))
       self.emit(st, 'call-pre', g, n, '%s requires %s' % (cu['name'], r), tag='[%s#%d]' % (cu['name'], i))
+    if cu.get('axioms_at_call'):
+      # the callee's axioms characterise total spec functions of explicit state arguments (no nullary
+      # symbols), so their instance at the call-time state is as valid as at the callee's entry
+      for ax in cu.get('axioms', []):
+        self.assume(st, guard_all(self.guards, truthy(sub.ev(parse_expr(ax), cst))))
     rt = sub.ty(cu['returns']) if cu.get('returns') else None
     if cu.get('pure'):
       reads = [cst.env[k] for k in sorted(cu.get('fields', {}))]
@@ -1342,8 +1362,14 @@ class Engine:
       res = sv.fresh(rt, 'ret_' + cu['name']) if rt is not None else sv.mk_none()
     sub.old_env = dict(cst.env)
     sub.bound = {'result': res}
+    # ghost fields of the callee: their new value is given by definition over the callee's pre / post state
+    if not cu.get('pure'):
+      for gf, gspec in cu.get('ghost_defs', {}).items():
+        post_st.env[gf] = self.ghost_value(sub, gf, gspec, post_st, dict(cst.env))
     sub.assuming = True
-    skip = set(cu.get('smt_skip_ensures', []))
+    # call_skip_ensures: clauses proved for the callee but not handed to callers (an equivalent clause in
+    # a solver-friendlier form is)
+    skip = set(cu.get('smt_skip_ensures', [])) | set(cu.get('call_skip_ensures', []))
     # postconditions of a callee are assumed at the call site only; calls made *inside* those
     # postconditions are bare applications (no unbounded unfolding of mutually recursive contracts)
     for i_, r in enumerate(cu.get('ensures', []) if getattr(self, 'depth', 0) < 1 else []):
@@ -1364,6 +1390,30 @@ class Engine:
       for p_ in cu.get('modifies_args', []):
         self.assign(n.args[params.index(p_)], post_st.env[p_], st)
     return res
+
+  # ---------------------------------------------------------------- ghost state
+  def ghost_value(self, eng, field, spec, st, old_env):
+    """Value of a ghost field given by definition: `field := lambda var: expr` (ghost assignment at the
+    unit's exit).  A functional definition is satisfiable for every state, so it assumes nothing."""
+    var, vt, text = spec
+    t = eng.declared(field)
+    vt = eng.ty(vt)
+    bv = z3.Const(sv.fresh_name('g_' + var), sv.zsort(vt))
+    sub_spec, sub_old, sub_bound = eng.spec, eng.old_env, dict(eng.bound)
+    eng.spec, eng.old_env = True, old_env
+    eng.bound[var] = V(vt, bv)
+    saved_obls = len(eng.obls)
+    try:
+      body = eng.ev(parse_expr(text), st)
+    finally:
+      eng.spec, eng.old_env, eng.bound = sub_spec, sub_old, sub_bound
+    del eng.obls[saved_obls:]
+    if t.kind == 'set':
+      return V(t, z3.Lambda([bv], truthy(body)))
+    if t.kind == 'dict':
+      body = coerce(body, t.args[1])
+      return sv.mk_dict(t, z3.K(sv.zsort(vt), z3.BoolVal(True)), z3.Lambda([bv], body.z))
+    raise Unsupported('ghost field of type %r' % (t,))
 
   # ---------------------------------------------------------------- statements
   def block(self, stmts, st):
@@ -1961,6 +2011,14 @@ class Engine:
         if rt is not None and not isinstance(val, RecV):
           val = coerce(val, rt)
         fin = {'final_' + k_: v_ for k_, v_ in s2.env.items() if isinstance(v_, V) and '.' not in k_}
+        for gf, gspec in u.get('ghost_defs', {}).items():
+          s2.env[gf] = self.ghost_value(self, gf, gspec, s2, old_env)
+        # frame: a declared field outside `modifies` has its entry value at every normal exit
+        for key in u.get('fields', {}):
+          if key not in u.get('modifies', []) and key in s2.env and key in old_env and \
+              s2.env[key] is not old_env[key] and u.get('modifies') is not None:
+            self.emit(s2, 'frame', eq(s2.env[key], old_env[key]), None, '%s is not modified' % key,
+                      tag='[%s]' % key)
         for k, e in enumerate(u.get('ensures', [])):
           if k in u.get('smt_skip_ensures', []):
             continue          # clause stated for the native back end only (see sidecar)
